@@ -230,6 +230,10 @@ def check(ctx):
     stream.r6_count_agreement(ctx, steps)
     select_delete_rename(ctx)
     computed_and_replace(ctx)
+    from rules import independence
+    independence.r28_functions(ctx, [('dataflows.processors.%s:process_resource' % m, {}) for m in
+                                     ('delete_fields', 'select_fields', 'rename_fields', 'add_computed_field')] +
+                               [('dataflows.processors.find_replace:_find_replace', {})])
     abstypes.r18_computed_field(ctx)
     # add_field delegates to add_computed_field with the documented shape
     af = ctx.repo.func('dataflows.processors.add_field:add_field')
